@@ -1,54 +1,47 @@
 (* C11 — the router after any edit history equals a freshly built router.
-   Only statements; proofs in proofs/C11_proofs.v, C11_hooks.v, C11_fresh.v (on
-   top of the C01 development).  filt is universally quantified as in C01.
+   Only statements; proofs in proofs/C11_proofs.v, C11_hooks.v, C11_fresh.v,
+   C11_more.v, C11_replay.v (on top of the C01 development).  filt is
+   universally quantified as in C01.
 
-   Proved, for ALL histories (no depth bound):
-   * C11_remove_exact_effect — RadiDict.remove (exact, prefix "*", hooks-only;
-     upward pruning, _try_merge) keeps the tree well-formed and removes exactly
-     the named routes;  C11_hook_install_keeps_routes;
-   * C11_history_tree_matches_index, C11_history_eq_fresh_partial — after any
-     history the tree holds exactly the routes of the index, and every path is
-     resolved as the rule-by-rule spec resolves it on the surviving index.
-   Proved for the hook slots:
-   * C11_lookup_collects_held_hooks (any well-formed tree): a lookup collects
-     exactly the hooks held under the pattern-prefixes of the selected route,
-     outermost first, with the position reached after each prefix;
-   * C11_hook_slots_insert (registrations never touch a hook; a hook
-     installation adds exactly one),  C11_remove_keeps_hooks (a route removal with
-     all its pruning and merging keeps every hook — the repaired F14 —, and
-     remove_hook removes exactly its hook);
-   * C11_hooks_fire_exactly_partial and C11_same_survivors_same_answers_partial:
-     for all histories WITHOUT prefix-"*" removals, the hooks collected are
-     exactly those of the hooks index whose pattern is a prefix of the matched
-     route's pattern, and two routers with the same surviving routes and hooks
-     answer every request identically (route, handler, kwargs, hook list) — a
-     freshly built router with the same survivors is one of them.
+   ADMISSIBLE histories = every operation of the router in any order (add /
+   overwrite / rejected add incl. the name conflict that has already inserted
+   its route / remove by rule, by name, by prefix "*" / add and remove hook /
+   remove_method), a prefix removal "P*" only when no installed hook pattern
+   properly extends P — the property text restricts prefix removal to routes —
+   and one filter per wildcard in every rule (what the code needs itself).
 
-   (* FULL STATEMENT, NOT YET PROVED:
-      Theorem C11_hooks_fire_exactly : the statement of C11_hooks_fire_exactly_partial for
-        all ADMISSIBLE histories, i.e. also with prefix removals "P*" applied when
-        no installed hook pattern properly extends P.
-      Missing: the hook-slot view of the prefix cut (remove_hpaths for wild = true:
-      under admissibility no hook lies below the cut node, so hpaths is unchanged). *)
+   FULL, for all admissible histories, no depth bound:
+   * C11_history_eq_fresh — the freshly built router (empty tree + the surviving
+     routes in index order + the surviving hooks, same Route objects and indexes)
+     EXISTS (every re-insertion is accepted) and answers every request exactly as
+     the edited router: 404 / 405+Allow / rule, method, handler, kwargs and hook
+     list; the listings and router[name] are the same indexes; router[{rule}]
+     gives the same result.
+   * C11_hooks_fire_exactly — a route hook fires for exactly those matched routes
+     whose pattern extends the hook's pattern, outermost first, at the position
+     reached after matching the hook's prefix.
+   * C11_same_survivors_same_answers, C11_by_rule_is_index_lookup.
+   For ALL histories (admissible or not): C11_remove_exact_effect,
+   C11_hook_install_keeps_routes, C11_history_tree_matches_index,
+   C11_history_eq_fresh_partial (the route part: resolve = rule-by-rule spec on the
+   surviving index; "partial" because the hook list is not part of it — for
+   admissible histories it is superseded by C11_history_eq_fresh).
+   Tree-level building blocks: C11_lookup_collects_held_hooks, C11_hook_slots_insert,
+   C11_remove_keeps_hooks, C11_prefix_cut_keeps_hooks, C11_rebuild_accepted.
 
-   (* FULL STATEMENT, NOT YET PROVED:
-      Theorem C11_history_eq_fresh : forall filt ops path cds,
-        Forall hist_cmd ops -> admissible ops ->
-        let R := exec_cmds router0 ops in
-        answer R (resolve filt R path cds) = answer (fresh R) (resolve filt (fresh R) path cds)
-        /\ by_name R = by_name (fresh R) /\ by_rule R = by_rule (fresh R) /\ listing R = listing (fresh R)
-      where fresh R = exec_cmds router0 (replay R), replay R = one registration per
-      surviving route and method (index order) + one hook installation per hook.
-      By C11_same_survivors_same_answers_partial what is missing is only:
-      (1) that replay R is accepted and reproduces content R and hooks_idx R
-          (re-inserting patterns that one well-formed tree already holds never
-          fails; replaying a method table reproduces it),
-      (2) the prefix-removal case above, (3) the by_rule equality (RadiRouter._match
-          finds exactly the indexed routes); by_name and listing are the indexes
-          themselves. *) *)
+   What is NOT covered by a theorem (only by the model/implementation
+   correspondence after every operation and by the fresh-real-router oracle):
+   * the 404 branch of Ombott.handler (PARTIAL slot of the last collected hook,
+     called with path[:1+pos] and param_values): the model computes it
+     (Router.fired_partial, R404's payload) and the correspondence compares it,
+     but [answer] maps every 404 to A404;
+   * "freshly built" is formalised as rebuilding the TREE from the indexes with
+     the same Route objects (Router heap) — re-running RadiRouter.add for every
+     surviving route/method/name is what the oracle does on the real code. *)
 From Coq Require Import Sorting.Sorted.
 From Verif Require Import lib.Base lib.Str gen.Gen model.RouteSpec model.Dispatch model.Router
-     proofs.C01_get proofs.C01_insert proofs.C01_router proofs.C11_proofs proofs.C11_hooks proofs.C11_fresh.
+     proofs.C01_get proofs.C01_insert proofs.C01_router proofs.C11_proofs proofs.C11_hooks proofs.C11_fresh
+     proofs.C11_more proofs.C11_replay.
 
 (* RadiDict.remove(pattern, hooks_only, exact): the tree stays well-formed and
    holds afterwards exactly the entries it held before, minus — unless
@@ -147,15 +140,33 @@ Theorem C11_remove_keeps_hooks : forall root pattern ho exact root',
 Proof. exact remove_hpaths_exact. Qed.
 Print Assumptions C11_remove_keeps_hooks.
 
-(* PARTIAL (histories without prefix-"*" removals): a route hook fires for
-   exactly those matched routes whose pattern extends the hook's pattern,
-   outermost first, at the position reached after matching the hook's prefix:
-   qs lists (hook pattern, hook pair) by increasing length, hs is qs with
-   positions (hrel), every member of qs is an entry of the hooks index whose
-   pattern is a prefix of the matched route's, and every such index entry is
-   in qs. *)
-Theorem C11_hooks_fire_exactly_partial : forall filt (cs : list cmd) path cds d m h kw hs,
-  Forall noprefix_cmd cs ->
+(* ADMISSIBLE histories: every operation of the router, a prefix removal "P*"
+   only when no installed hook pattern properly extends P (the property text
+   restricts prefix removal to routes); the only other guard is the one the
+   code needs itself (one filter per wildcard in a rule).  [admissible] is
+   checked against the state each operation is applied to. *)
+
+(* remove("P*") seen from the hook slots: provided no hook lies strictly under
+   P, the cut (with its pruning and merging) keeps every hook. *)
+Theorem C11_prefix_cut_keeps_hooks : forall root pattern root',
+  wf root -> ends_star pattern = true ->
+  (forall e, In e (hpaths root) -> prefixb (removelast pattern) (rstr (fst e)) = true ->
+             rstr (fst e) = removelast pattern) ->
+  rd_remove root pattern false false = Some root' ->
+  forall e, In e (hpaths root') <-> In e (hpaths root).
+Proof. exact remove_hpaths_prefix. Qed.
+Print Assumptions C11_prefix_cut_keeps_hooks.
+
+(* FULL: for every admissible history, a route hook fires for exactly those
+   matched routes whose pattern extends the hook's pattern, outermost first, at
+   the position reached after matching the hook's prefix: qs lists (hook
+   pattern, hook pair) by increasing length, hs is qs with positions (hrel:
+   position = characters consumed by matching that prefix; Ombott.handler
+   passes path[:1+pos], Router.fired_simple), every member of qs is an entry of
+   the hooks index whose pattern is a prefix of the matched route's, and every
+   such index entry is in qs. *)
+Theorem C11_hooks_fire_exactly : forall filt (cs : list cmd) path cds d m h kw hs,
+  admissible router0 cs ->
   let R := exec_cmds router0 cs in
   resolve filt R path cds = ROk d m h kw hs ->
   exists rt qs,
@@ -166,23 +177,70 @@ Theorem C11_hooks_fire_exactly_partial : forall filt (cs : list cmd) path cds d 
        al_get (hooks_idx R) (rstr q) = Some hp /\ pprefix q (fpat (r_pattern rt) (r_filters rt))) /\
     (forall ph hp, al_get (hooks_idx R) ph = Some hp -> prefixb ph (r_pattern rt) = true ->
        exists q, rstr q = ph /\ In (q, hp) qs).
-Proof. exact hooks_fire_lemma. Qed.
-Print Assumptions C11_hooks_fire_exactly_partial.
+Proof. exact hooks_fire_adm_lemma. Qed.
+Print Assumptions C11_hooks_fire_exactly.
 
-(* PARTIAL (histories without prefix-"*" removals): the answer to a request —
-   404 / 405+Allow / (rule, method, handler, kwargs, hook list) — depends only
-   on what survived: two reachable routers with the same surviving routes
-   (pattern -> Route contents, in index order) and the same hooks index answer
-   identically, whatever splits, prunings and merges their trees went through.
-   A router freshly built from the surviving indexes is such a router. *)
-Theorem C11_same_survivors_same_answers_partial :
+(* For all admissible histories: the answer to a request — 404 / 405+Allow /
+   (rule, method, handler, kwargs, hook list) — depends only on what survived:
+   two reachable routers with the same surviving routes (pattern -> Route
+   contents, in index order) and the same hooks index answer identically,
+   whatever splits, prunings and merges their trees went through. *)
+Theorem C11_same_survivors_same_answers :
   forall filt (cs cs' : list cmd) (path : str) (cds : list str),
-  Forall noprefix_cmd cs -> Forall noprefix_cmd cs' ->
+  admissible router0 cs -> admissible router0 cs' ->
   let R := exec_cmds router0 cs in let R' := exec_cmds router0 cs' in
   content R = content R' -> hooks_idx R = hooks_idx R' ->
   answer R (resolve filt R path cds) = answer R' (resolve filt R' path cds).
-Proof. exact same_survivors_lemma. Qed.
-Print Assumptions C11_same_survivors_same_answers_partial.
+Proof. exact same_survivors_adm_lemma. Qed.
+Print Assumptions C11_same_survivors_same_answers.
+
+(* every history without prefix removals is admissible *)
+Theorem C11_noprefix_is_admissible : forall cs R, Forall noprefix_cmd cs -> admissible R cs.
+Proof. exact noprefix_admissible. Qed.
+Print Assumptions C11_noprefix_is_admissible.
+
+(* router[{rule}] = RadiRouter._match with the rule's filters: after any
+   history it finds exactly the route indexed under that pattern whose filters
+   are the rule's (names are not compared) — a function of the indexes only. *)
+Theorem C11_by_rule_is_index_lookup : forall (cs : list cmd) p fl d,
+  Forall hist_cmd cs -> ntok p = length fl ->
+  let R := exec_cmds router0 cs in
+  (rt_match R p fl = Some d <->
+   al_get (routes R) p = Some d /\ exists rt, nth_error (heap R) d = Some rt /\ r_filters rt = fl).
+Proof. exact by_rule_lemma. Qed.
+Print Assumptions C11_by_rule_is_index_lookup.
+
+(* The tree rebuilt from the surviving indexes: every insertion is accepted
+   (no filter conflict, no occupied slot — because one well-formed tree already
+   holds all these patterns together), and the result is in step with the same
+   heap and indexes. *)
+Theorem C11_rebuild_accepted : forall R, Inv R -> HInv R ->
+  exists F, rebuild R = Some F /\ Inv F /\ HInv F /\
+            heap F = heap R /\ routes F = routes R /\ named F = named R /\ hooks_idx F = hooks_idx R.
+Proof. exact rebuild_ok. Qed.
+Print Assumptions C11_rebuild_accepted.
+
+(* FULL: the router after any admissible history equals the freshly built one. *)
+Theorem C11_history_eq_fresh : forall (cs : list cmd),
+  admissible router0 cs ->
+  let R := exec_cmds router0 cs in
+  exists F,
+    rebuild R = Some F /\
+    heap F = heap R /\ routes F = routes R /\ named F = named R /\ hooks_idx F = hooks_idx R /\
+    (forall filt path cds, answer R (resolve filt R path cds) = answer F (resolve filt F path cds)) /\
+    (forall p fl, ntok p = length fl -> rt_match F p fl = rt_match R p fl).
+Proof. exact history_eq_fresh_lemma. Qed.
+Print Assumptions C11_history_eq_fresh.
+
+Example C11_eq_fresh_nonvacuous :
+  let cs := [CAdd 0 s_abc [] [] [s_get] 1 None false; CAddHook s_ab [] [] 50 false; CRemoveHook s_ab;
+             CAddHook s_a [] [] 51 false] in
+  let R := exec_cmds router0 cs in
+  admissible router0 cs /\
+  exists F, rebuild R = Some F /\ tree F <> tree R /\
+            answer R (resolve nofilt R (47%N :: s_abc) [s_get]) = AOk 0 s_get 1 [] [(1, (Some 51, None))] /\
+            answer F (resolve nofilt F (47%N :: s_abc) [s_get]) = AOk 0 s_get 1 [] [(1, (Some 51, None))].
+Proof. exact eq_fresh_nonvacuous_lemma. Qed.
 
 (* non-vacuity: the witnesses of the repaired defects F14, F15, F33 and a
    prefix-removal / prune / merge history, evaluated on the model *)
